@@ -678,13 +678,13 @@ func c18GenReply(r *vh.Rand, k int, ncalls int, toolNames []string, forceLate bo
 	var calls []c18Call
 	for i := 0; i < ncalls; i++ {
 		name := toolNames[r.Intn(len(toolNames))]
-		if r.Chance(4) {
+		if r.Intn(1000) < 12 {
 			name = "ghost"
 		}
 		id := fmt.Sprintf("c%d_%d", k, i)
-		if r.Chance(4) && i > 0 {
+		if r.Chance(2) && i > 0 {
 			id = calls[i-1].ID // duplicate id
-		} else if r.Chance(3) {
+		} else if r.Chance(2) {
 			id = ""
 		}
 		calls = append(calls, c18Call{ID: id, Name: name, Args: fmt.Sprintf("{\"k\":%d}", r.Intn(5))})
@@ -780,7 +780,7 @@ func c18Gen(r *vh.Rand) *c18Case {
 	for i := 0; i < nt; i++ {
 		t := c18Tool{Name: fmt.Sprintf("t%d", i+1), Kind: "echo", Streamable: r.Chance(25)}
 		switch {
-		case r.Chance(7):
+		case r.Chance(4):
 			t.Kind, t.ErrID = "fail", r.Intn(3)
 		case r.Chance(15):
 			t.Kind, t.Value = "const", []string{"", "v", "result"}[r.Intn(3)]
@@ -788,9 +788,9 @@ func c18Gen(r *vh.Rand) *c18Case {
 		c.Tools = append(c.Tools, t)
 		names = append(names, t.Name)
 	}
-	if r.Chance(45) {
+	if r.Chance(40) {
 		for _, n := range names {
-			if r.Chance(40) {
+			if r.Chance(30) {
 				c.RD = append(c.RD, n)
 			}
 		}
